@@ -115,6 +115,30 @@ def deTokSeq (hint : Option Nat) (toks : List (TokKind × Int)) : Option (List N
   | none => none
   | some ws => some (de hint ws)
 
+/-! ### type hints
+
+A non-self-describing format (bincode / postcard style) decodes by the `deserialize_*` hint it is given, so the hints
+requested by `Deserialize` are part of the wire contract: they have to name the types that `Serialize` wrote. -/
+
+/-- the kinds of `Serializer` call (`serialize_tuple(2)`, `serialize_i8`, `serialize_seq`, `serialize_u32`) -/
+inductive Kind where
+  | tuple2 | i8 | seq | u32
+  deriving DecidableEq, Repr
+
+/-- what `Serialize for BigUint` writes, as kinds -/
+def serKindsU (data : List Nat) : List Kind := .seq :: (ser data).elems.map (fun _ => Kind.u32)
+
+/-- what `Serialize for BigInt` writes, as kinds -/
+def serKindsI (x : BigInt) : List Kind := .tuple2 :: .i8 :: serKindsU x.mag
+
+/-- the hints `Deserialize for BigUint` asks for on a sequence of `n` well-typed tokens -/
+def deHintsU (tokens : List Nat) : List Kind := .seq :: tokens.map (fun _ => Kind.u32)
+
+/-- the hints `Deserialize for BigInt` asks for: the tuple, the sign as `i8`, and (only if the sign is accepted —
+    serde's tuple visitor stops at the first error) the magnitude -/
+def deHintsI (v : Int) (tokens : List Nat) : List Kind :=
+  .tuple2 :: .i8 :: (match deSign v with | none => [] | some _ => deHintsU tokens)
+
 /-- `Deserialize for BigInt` with a typed sign token -/
 def deBigIntTok (k : TokKind) (v : Int) (hint : Option Nat) (tokens : List Nat) : Option BigInt :=
   match deSignTok k v with
